@@ -1,0 +1,23 @@
+//go:build verif
+
+package emit
+
+// Contracts for the verif build tag (comment-only; see /verif/DESIGN.md).
+
+// C18, script builders and their parsers: a byte string is emitted behind the narrowest PUSHDATA
+// whose length field holds its length, and the field says that length (little-endian) - what the
+// parser and the VM read back.
+//@ prop C18
+//@ import opcode github.com/nspcc-dev/neo-go/pkg/vm/opcode
+//@ import io github.com/nspcc-dev/neo-go/pkg/io
+// an instruction is its opcode byte followed by its operand bytes
+//@ func Instruction
+//@ requires io.validW(w)
+//@ modifies w.Err, w.w.out, w.uv
+//@ ensures[writer] io.validW(w)
+//@ func Bytes
+//@ may-panic
+//@ opt frame off
+//@ requires io.validW(w) && len(b) < 4294967296
+//@ call Instruction requires[field] (arg1 == opcode.PUSHDATA1 && len(arg2) == 1 && arg2[0] == len(b)) || (arg1 == opcode.PUSHDATA2 && len(arg2) == 2 && arg2[0] + arg2[1]*256 == len(b) && len(b) >= 256) || (arg1 == opcode.PUSHDATA4 && len(arg2) == 4 && arg2[0] + arg2[1]*256 + arg2[2]*65536 + arg2[3]*16777216 == len(b) && len(b) >= 65536)
+//@ call WriteBytes requires[data] same(arg1, b) && ncalls(Instruction) == 1
